@@ -174,7 +174,17 @@ def run_impl(case):
         cna = _cna(rows, cols)
         if not i["with_w"]:
             cna = cna.keep_columns(cols[:-1])
-        return bool(cna.guess_xx(i["hapX"], verbose=False))
+        xx = bool(cna.guess_xx(i["hapX"], verbose=False))
+        # shift_xx with the sex left to be inferred must act as with the inferred sex given explicitly, and bring
+        # chrX to the autosomal level
+        import numpy as np
+        inferred = cna.shift_xx(i["hapX"])
+        explicit = cna.shift_xx(i["hapX"], xx)
+        same = bool(np.allclose(inferred["log2"].values, explicit["log2"].values, rtol=0, atol=1e-12))
+        isx = (inferred.chromosome == inferred.chr_x_label).values
+        auto = inferred.autosomes()["log2"].values
+        dx = float(np.median(inferred["log2"].values[isx]) - np.median(auto)) if isx.any() and len(auto) else 0.0
+        return {"xx": xx, "shift_same": same, "x_minus_auto": dx}
     if op == "sex":
         from scipy.stats import median_test
         cols = ["chromosome", "start", "end", "gene", "log2"]
@@ -233,7 +243,13 @@ def judge(case, impl, resp):
     if "error" in resp:
         return [], ["model error: " + resp["error"]], None
     if op == "sex_oracle":
-        return ([] if impl == case["in"]["female"] else ["sex_inferred_under_noise"]), [], None
+        spec = [] if impl["xx"] == case["in"]["female"] else ["sex_inferred_under_noise"]
+        if not impl["shift_same"]:
+            spec.append("shift_xx_uses_inferred_sex")
+        # medians of >= 40 bins with sd <= 0.3: the two medians are each within ~0.15 of their levels
+        if impl["xx"] == case["in"]["female"] and abs(impl["x_minus_auto"]) > 0.35:
+            spec.append("shift_xx_brings_x_to_autosomal_level")
+        return spec, [], None
     spec = list(resp.get("spec") or [])
     dis = []
     if op == "sex":
